@@ -292,8 +292,8 @@ def wstep (s : St) (t : Nat) : Option (St × List String) :=
     let wpos := ring (s.wc + 1) cap
     let ev := s!"T{t} r write_cursor {s.wc}"
     if wpos = rpos then
-      let (s', evs) := leaveFn { s with fulls := s.fulls ++ [s.accepted.length - s.obs t] } t .full
-      some (s', ev :: evs)
+      let r := leaveFn { s with fulls := s.fulls ++ [s.accepted.length - s.obs t] } t .full
+      some (r.1, ev :: r.2)
     else some ({ s with pc := upd s.pc t (.cRdW2 wpos) }, [ev])
   | .cRdW2 wpos =>
     some ({ s with pc := upd s.pc t (.cWrB wpos s.wc) }, [s!"T{t} r write_cursor {s.wc}"])
@@ -304,8 +304,8 @@ def wstep (s : St) (t : Nat) : Option (St × List String) :=
           [s!"T{t} w blocks[{idx}] {showData c (some (cur s t))}"])
   | .cSt wpos =>
     let s1 := publish { s with relWC := s.know t } t wpos
-    let (s', evs) := leaveFn s1 t .ok
-    some (s', s!"T{t} st write_cursor {wpos} rel" :: evs)
+    let r := leaveFn s1 t .ok
+    some (r.1, s!"T{t} st write_cursor {wpos} rel" :: r.2)
   /- write_busy -/
   | .bRdW =>
     some ({ s with pc := upd s.pc t (.bRdC (ring (s.wc + 1) cap)) }, [s!"T{t} r write_cursor {s.wc}"])
@@ -323,8 +323,8 @@ def wstep (s : St) (t : Nat) : Option (St × List String) :=
     let ev := s!"T{t} r cached_r_cur {s.cached}"
     if wpos ≠ s.cached then some ({ s with pc := upd s.pc t (.cRdW2 wpos) }, [ev])
     else
-      let (s', evs) := leaveFn { s with fulls := s.fulls ++ [s.accepted.length - s.cachedObs] } t .full
-      some (s', ev :: evs)
+      let r := leaveFn { s with fulls := s.fulls ++ [s.accepted.length - s.cachedObs] } t .full
+      some (r.1, ev :: r.2)
   /- write_mutex -/
   | .mLock =>
     some ({ s with rmtx := some t, know := upd s.know t (joinK (s.know t) s.relRM),
@@ -347,48 +347,48 @@ def wstep (s : St) (t : Nat) : Option (St × List String) :=
   | .mWrW wpos =>
     some ({ publish s t wpos with pc := upd s.pc t (.mUnlock .ok) }, [s!"T{t} w write_cursor {wpos}"])
   | .mUnlock r =>
-    let (s', evs) := leaveFn { s with rmtx := none, relRM := s.know t } t r
-    some (s', s!"T{t} mtx-unlock rmutex" :: evs)
+    let r := leaveFn { s with rmtx := none, relRM := s.know t } t r
+    some (r.1, s!"T{t} mtx-unlock rmutex" :: r.2)
   /- fn_unlock, fn_wake -/
   | .wUnlock r =>
     match c.wl with
     | .spin =>
-      let (s', evs) := afterUnlock { s with wlock := 0, holder := none, relWL := s.know t } t r
-      some (s', s!"T{t} st wlock 0 rel" :: evs)
+      let r := afterUnlock { s with wlock := 0, holder := none, relWL := s.know t } t r
+      some (r.1, s!"T{t} st wlock 0 rel" :: r.2)
     | .sync =>
       some ({ s with wlock := 0, holder := none, relWL := s.know t, pc := upd s.pc t (.wUnlockWake r) },
             [s!"T{t} st wlock 0 rel"])
     | .mutex =>
-      let (s', evs) := afterUnlock { s with holder := none, relWL := s.know t } t r
-      some (s', s!"T{t} mtx-unlock wmutex" :: evs)
+      let r := afterUnlock { s with holder := none, relWL := s.know t } t r
+      some (r.1, s!"T{t} mtx-unlock wmutex" :: r.2)
     | .single => none
   | .wUnlockWake r =>
     match firstBlocked s.pc c.W 0 with
     | some w =>
-      let (s', evs) := afterUnlock { s with pc := upd s.pc w .wWoken } t r
-      some (s', s!"T{t} futex-wake wlock 1 woke=1" :: evs)
+      let r := afterUnlock { s with pc := upd s.pc w .wWoken } t r
+      some (r.1, s!"T{t} futex-wake wlock 1 woke=1" :: r.2)
     | none =>
-      let (s', evs) := afterUnlock s t r
-      some (s', s!"T{t} futex-wake wlock 1 woke=0" :: evs)
+      let r := afterUnlock s t r
+      some (r.1, s!"T{t} futex-wake wlock 1 woke=0" :: r.2)
   | .wWake =>
     let rd := c.reader
     match c.rm with
     | .sync =>
       match s.pc rd with
       | .rBlocked rpos =>
-        let (s', evs) := finishCall { s with pc := upd s.pc rd (.rWoken rpos) } t .ok
-        some (s', s!"T{t} futex-wake write_cursor 1 woke=1" :: evs)
+        let r := finishCall { s with pc := upd s.pc rd (.rWoken rpos) } t .ok
+        some (r.1, s!"T{t} futex-wake write_cursor 1 woke=1" :: r.2)
       | _ =>
-        let (s', evs) := finishCall s t .ok
-        some (s', s!"T{t} futex-wake write_cursor 1 woke=0" :: evs)
+        let r := finishCall s t .ok
+        some (r.1, s!"T{t} futex-wake write_cursor 1 woke=0" :: r.2)
     | .mutex =>
       match s.pc rd with
       | .rmCvBlocked =>
-        let (s', evs) := finishCall { s with pc := upd s.pc rd .rmCvSignaled } t .ok
-        some (s', s!"T{t} cv-signal rcv woke=1" :: evs)
+        let r := finishCall { s with pc := upd s.pc rd .rmCvSignaled } t .ok
+        some (r.1, s!"T{t} cv-signal rcv woke=1" :: r.2)
       | _ =>
-        let (s', evs) := finishCall s t .ok
-        some (s', s!"T{t} cv-signal rcv woke=0" :: evs)
+        let r := finishCall s t .ok
+        some (r.1, s!"T{t} cv-signal rcv woke=0" :: r.2)
     | .busy => none
   | .wYield => some (enterCall s t, [s!"T{t} yield"])
   | _ => none
@@ -425,8 +425,8 @@ def rstep (s : St) (t : Nat) (flag : Flag) : Option (St × List String) :=
     some ({ s with pc := upd s.pc t (.rStR rpos (s.blocks rpos)) },
           [s!"T{t} r blocks[{rpos}] {showData c (s.blocks rpos)}"])
   | .rStR rpos d =>
-    let (s', evs) := readReturned { s with rc := rpos, delivered := s.delivered ++ [d] } t d
-    some (s', s!"T{t} st read_cursor {rpos} rel" :: evs)
+    let r := readReturned { s with rc := rpos, delivered := s.delivered ++ [d] } t d
+    some (r.1, s!"T{t} st read_cursor {rpos} rel" :: r.2)
   | .rPay m =>
     let g := c.gid m
     let k' := s.k t + 1
@@ -462,8 +462,8 @@ def rstep (s : St) (t : Nat) (flag : Flag) : Option (St × List String) :=
     some ({ s with rc := rpos, delivered := s.delivered ++ [d], pc := upd s.pc t (.rmUnlock d) },
           [s!"T{t} w read_cursor {rpos}"])
   | .rmUnlock d =>
-    let (s', evs) := readReturned { s with rmtx := none, relRM := s.know t } t d
-    some (s', s!"T{t} mtx-unlock rmutex" :: evs)
+    let r := readReturned { s with rmtx := none, relRM := s.know t } t d
+    some (r.1, s!"T{t} mtx-unlock rmutex" :: r.2)
   | _ => none
 
 def step (s : St) (tok : Tok) : Option (St × List String) :=
